@@ -167,83 +167,97 @@ func mixBLS(c *Ctx, g int) string {
 	return "ok"
 }
 
-// mixBLSFirstUse: the very FIRST use of freshly built key objects is concurrent (anything a key computes lazily and
-// keeps - an encoding, a flag, a normalised form - is then computed by several goroutines at once). The expected
-// results come from twin objects built the same way and used alone; keys of every provenance, including keys in
-// non-affine coordinates (results of removal), for which serialization is slow.
+// mixBLSFirstUse: the very FIRST use of a freshly built key object is concurrent: for every provenance of a public key
+// (generated, decoded, result of a removal = non-affine coordinates, key share of threshold key generation = non-affine)
+// and every listed operation, a fresh object is built and ALL goroutines start the same operation on it at the same
+// moment (anything a key computes or normalises lazily is then done by several goroutines at once - in Go, where the
+// race detector sees it, or in C, where only the results show it). Expected results come from twin objects built the
+// same way and used alone; afterwards the shared object must still encode and verify like its twin.
 func mixBLSFirstUse(c *Ctx, g int) string {
 	h := crypto.NewExpandMsgXOFKMAC128("first")
 	msg := c.bytes(33)
 	k1, k2 := c.randScalar(), c.randScalar()
-	build := func() (keys []crypto.PublicKey, sk crypto.PrivateKey) {
-		sk1, sk2 := skFromInt(k1), skFromInt(k2)
-		p1, _ := sk1.PublicKey(), sk2.PublicKey()
-		dec, _ := crypto.DecodePublicKey(crypto.BLSBLS12381, p1.Encode())
-		q1, q2 := skFromInt(k1).PublicKey(), skFromInt(k2).PublicKey()
-		agg, _ := crypto.AggregateBLSPublicKeys([]crypto.PublicKey{q1, q2})
-		rem, _ := crypto.RemoveBLSPublicKeys(agg, []crypto.PublicKey{q2}) // = pk1, not normalised
-		return []crypto.PublicKey{skFromInt(k1).PublicKey(), dec, rem}, skFromInt(k1)
-	}
+	thSeed := c.bytes(32)
 	refSk := skFromInt(k1)
 	sig, _ := refSk.Sign(msg, h)
 	pop, _ := crypto.BLSGeneratePOP(refSk)
 	snapSig, snapPop := append([]byte{}, sig...), append([]byte{}, pop...)
-	opsOf := func(keys []crypto.PublicKey, sk crypto.PrivateKey) []func() string {
-		var ops []func() string
-		for _, pk := range keys {
-			pk := pk
-			ops = append(ops,
-				func() string { ok, err := crypto.BLSVerifyPOP(pk, pop); return fmt.Sprint(ok, errClass(err)) },
-				func() string { return hx(pk.Encode()) },
-				func() string { ok, err := pk.Verify(sig, msg, h); return fmt.Sprint(ok, errClass(err)) },
-				func() string { return pk.String() },
-				func() string { return fmt.Sprint(pk.Equals(keys[0]), crypto.IsBLSAggregateEmptyListError(nil)) },
-				func() string {
-					ok, err := crypto.VerifyBLSSignatureOneMessage([]crypto.PublicKey{pk}, sig, msg, h)
-					return fmt.Sprint(ok, errClass(err))
-				},
-			)
+	// threshold key shares: the signature and PoP of share 0
+	thSks, _, _, err := crypto.BLSThresholdKeyGen(3, 1, thSeed)
+	if err != nil {
+		return "err"
+	}
+	thSig, _ := thSks[0].Sign(msg, h)
+	thPop, _ := crypto.BLSGeneratePOP(thSks[0])
+	type built struct {
+		pk       crypto.PublicKey
+		sig, pop []byte
+	}
+	builders := []func() built{
+		func() built { return built{skFromInt(k1).PublicKey(), sig, pop} },
+		func() built {
+			d, _ := crypto.DecodePublicKey(crypto.BLSBLS12381, skFromInt(k1).PublicKey().Encode())
+			return built{d, sig, pop}
+		},
+		func() built {
+			q1, q2 := skFromInt(k1).PublicKey(), skFromInt(k2).PublicKey()
+			agg, _ := crypto.AggregateBLSPublicKeys([]crypto.PublicKey{q1, q2})
+			rem, _ := crypto.RemoveBLSPublicKeys(agg, []crypto.PublicKey{q2}) // = pk1, not normalised
+			return built{rem, sig, pop}
+		},
+		func() built {
+			_, pks, _, _ := crypto.BLSThresholdKeyGen(3, 1, thSeed) // key shares are not normalised
+			return built{pks[0], thSig, thPop}
+		},
+	}
+	opsOf := func(b built) []func() string {
+		pk := b.pk
+		return []func() string{
+			func() string { ok, err := pk.Verify(b.sig, msg, h); return fmt.Sprint(ok, errClass(err)) },
+			func() string { ok, err := crypto.BLSVerifyPOP(pk, b.pop); return fmt.Sprint(ok, errClass(err)) },
+			func() string { return hx(pk.Encode()) },
+			func() string {
+				ok, err := crypto.VerifyBLSSignatureOneMessage([]crypto.PublicKey{pk}, b.sig, msg, h)
+				return fmt.Sprint(ok, errClass(err))
+			},
+			func() string { ok, err := crypto.SPOCKVerify(pk, b.sig, pk, b.sig); return fmt.Sprint(ok, errClass(err)) },
 		}
-		ops = append(ops,
-			func() string { return hx(sk.PublicKey().Encode()) },
-			func() string { s, err := sk.Sign(msg, h); return hx(s) + errClass(err) },
-			func() string { p, err := crypto.BLSGeneratePOP(sk); return hx(p) + errClass(err) },
-		)
-		return ops
 	}
-	twinKeys, twinSk := build()
-	twin := opsOf(twinKeys, twinSk)
-	want := make([]string, len(twin))
-	for i, op := range twin {
-		want[i] = op()
-	}
-	freshKeys, freshSk := build()
-	ops := opsOf(freshKeys, freshSk)
-	results := make([]string, g)
-	start := make(chan struct{})
-	var wg sync.WaitGroup
-	for i := 0; i < g; i++ {
-		wg.Add(1)
-		go func(i int) {
-			defer wg.Done()
-			<-start
-			for rep := 0; rep < len(ops); rep++ {
-				// all goroutines start on the same operation (first use of the same object), then spread
-				k := rep
-				if rep > 0 {
-					k = (i*7 + rep) % len(ops)
-				}
-				if got := ops[k](); got != want[k] {
-					results[i] = fmt.Sprintf("result-changed op %d: got %s want %s", k, got, want[k])
+	for bi, build := range builders {
+		twin := opsOf(build())
+		want := make([]string, len(twin))
+		for i, op := range twin {
+			want[i] = op()
+		}
+		for oi := range twin {
+			fresh := build()
+			ops := opsOf(fresh)
+			results := make([]string, g)
+			start := make(chan struct{})
+			var wg sync.WaitGroup
+			for i := 0; i < g; i++ {
+				wg.Add(1)
+				go func(i int) {
+					defer wg.Done()
+					<-start
+					if got := ops[oi](); got != want[oi] {
+						results[i] = fmt.Sprintf("result-changed provenance %d op %d: got %s want %s", bi, oi, got, want[oi])
+					}
+				}(i)
+			}
+			close(start)
+			wg.Wait()
+			for _, r := range results {
+				if r != "" {
+					return r
 				}
 			}
-		}(i)
-	}
-	close(start)
-	wg.Wait()
-	for _, r := range results {
-		if r != "" {
-			return r
+			// the shared object after its concurrent first use
+			for k, op := range ops {
+				if got := op(); got != want[k] {
+					return fmt.Sprintf("key-changed-by-concurrent-first-use provenance %d first-op %d then op %d: got %s want %s", bi, oi, k, got, want[k])
+				}
+			}
 		}
 	}
 	if !bytes.Equal(sig, snapSig) || !bytes.Equal(pop, snapPop) {
